@@ -713,6 +713,10 @@ void Die(const char* cls, const char* msg) {
   }
   AbortRun(3);
 }
+static bool gThorough = false;
+bool Thorough() noexcept {
+  return gThorough;
+}
 static std::string gProfile;
 const char* Profile() noexcept {
   return gProfile.c_str();
@@ -1706,6 +1710,7 @@ int One(const Args& a) {
   j.KV("property", gInfo->property);
   j.KV("harness", gInfo->name);
   j.KV("profile", gProfile);
+  j.KV("tier", gThorough ? "thorough" : "quick");
   AppendResultJson(j, *shared, true);
   // the class decided by the parent (covers crashes) overrides what the child managed to write
   j.KV("verdict", cls);
@@ -1896,6 +1901,7 @@ int Minimize(const Args& a) {
   j.KV("property", gInfo->property);
   j.KV("harness", gInfo->name);
   j.KV("profile", gProfile);
+  j.KV("tier", gThorough ? "thorough" : "quick");
   AppendResultJson(j, *m.shared, true);
   j.KV("verdict", got);
   if (!describe.empty()) {
@@ -1960,6 +1966,7 @@ int Main(int argc, char** argv, const HarnessInfo& info) {
   const std::string mode = argv[1];
   const Args a = ParseArgs(argc, argv, 2);
   gProfile = a.Get("profile", "");
+  gThorough = std::string(a.Get("tier", "quick")) == "thorough";
   if (mode == "explore") {
     return Explore(a);
   }
